@@ -4,11 +4,11 @@
 set -u
 prop=$1; tier=${2:-quick}; shift; shift 2>/dev/null
 others="$@"
-src=/tmp/wtb-$prop/DEMO; dst=/verif/seeded/benign-$prop
+src=${SRC:-/tmp/wtb-$prop/DEMO}; dst=/verif/seeded/${BID:-benign-$prop}
 export GOFLAGS=-mod=mod GOPROXY=off GOSUMDB=off GOTOOLCHAIN=local
 mkdir -p $dst
 if [ -d $src ]; then cp $src/patch.diff $dst/ 2>/dev/null; cp $src/README.md $dst/agent_README.md 2>/dev/null; fi
-ev=/tmp/evb-$prop
+ev=/tmp/evb-${BID:-$prop}
 git -C /repo worktree remove --force $ev 2>/dev/null
 git -C /repo worktree add -q $ev HEAD || exit 2
 ( cd $ev && git apply $dst/patch.diff ) || { echo "patch does not apply"; git -C /repo worktree remove --force $ev; exit 2; }
@@ -25,4 +25,3 @@ p=p if os.path.isabs(p) else os.path.join('/verif',p)
 d=json.load(open(p)); print('  ', d.get('sub'), '|', (d.get('error') or d.get('kind') or '')[:500].replace('\n',' '))" 2>/dev/null; done
 done
 git -C /repo worktree remove --force $ev
-rm -rf /verif/.work/bin-* /verif/.work/alt-*
